@@ -1,12 +1,12 @@
 package zv
 
 import (
-	"strconv"
 	"bytes"
 	"fmt"
 	"go/constant"
 	"go/token"
 	"go/types"
+	"strconv"
 	"strings"
 	"unicode"
 
